@@ -575,11 +575,17 @@ class Codec:
                 model._f["ctcs"][0]._f["_ast"]._f["root"]._f["right"] = mb.node(rn("Bb"))   # the first constraint edited
             except (KeyError, AttributeError, IndexError, TypeError):
                 pass                                       # (the classes keep the tree elsewhere: the other edits remain)
-            if abstract:
-                for rel in r_._f["relations"]:
-                    for ch in rel._f["children"]:
-                        if ch._f.get("name") == rn("Cc"):
-                            ch._f["is_abstract"] = True
+            for rel in r_._f["relations"]:
+                for ch in rel._f["children"]:
+                    if abstract and ch._f.get("name") == rn("Cc"):
+                        ch._f["is_abstract"] = True
+                    if ch._f.get("name") == rn("Aa"):
+                        for grp in ch._f["relations"]:
+                            if len(grp._f["children"]) == 2:
+                                mb._pin(grp, "card_max", 2)        # the alternative group becomes an or-group
+                    if ch._f.get("name") == rn("Bb"):
+                        for rel2 in [x for x in r_._f["relations"] if ch in x._f["children"]]:
+                            mb._pin(rel2, "card_min", 0)           # the mandatory child becomes optional
         return m, edit
 
     def writer_reuse(self, mb: ModelBuilder, rule: str = "REUSE", **kw: Any) -> None:
@@ -624,7 +630,9 @@ class Codec:
                 ctx.info(f"{self.prefix}-{rule}", key, self.wwhere, f"a writer object used twice raises {exc.what}")
                 continue
             reset_global_state()
-            fresh = run_writer(pm, self.W, target, setup=self.wsetup)
+            indep, edit3 = self.reuse_base(mb, **kw)           # built independently, edited before anything looked at it
+            edit3(indep)
+            fresh = run_writer(pm, self.W, indep, setup=self.wsetup)
             if fresh["raise"]:
                 continue
             ctx.check(second == fresh["written"] and same_content(returned, second), f"{self.prefix}-{rule}", key,
